@@ -5,7 +5,10 @@ VERIF_REPO) and record the outcome in meta.json (detected_by / missed)."""
 import glob, json, os, re, subprocess, sys
 prop = sys.argv[1]
 extra = sys.argv[2:]
+only = os.environ.get("SEEDS", "").split()
 for d in sorted(glob.glob("/verif/seeded/%s-*" % prop)):
+    if only and os.path.basename(d) not in only:
+        continue
     patch = os.path.join(d, "patch.diff")
     p = subprocess.run(["/verif/tools/seedcheck.sh", prop, patch] + extra,
                        capture_output=True, text=True)
